@@ -89,6 +89,14 @@ AddIn(t1, t2, r) == /\ Len(conds) < MaxClauses
                     /\ UNCHANGED def
                     /\ hist' = Append(hist, [op |-> "In", tuples |-> <<t1, t2>>, r |-> r])
 
+\* When.Matches(Pair{args1, r1}, Pair{args2, r2}): two DefaultMatcher clauses at once; the default is untouched
+AddMatches(es1, r1, es2, r2) ==
+    /\ Len(conds) + 2 <= MaxClauses + 1
+    /\ (def # None \/ conds # <<>>)
+    /\ conds' = conds \o <<[kind |-> "when", exprs |-> es1, r |-> r1], [kind |-> "when", exprs |-> es2, r |-> r2]>>
+    /\ UNCHANGED def
+    /\ hist' = Append(hist, [op |-> "Matches", pairs |-> <<[exprs |-> es1, r |-> r1], [exprs |-> es2, r |-> r2]>>])
+
 \* probe every call of the domain (single results: calls do not change the state)
 CallAll == /\ (def # None \/ conds # <<>>)
            /\ hist # <<>> /\ hist[Len(hist)].op # "CallAll"
@@ -103,6 +111,9 @@ Next == /\ ~Closed
            \/ \E n \in Arities, r \in R : \E t1 \in Tuples(n), v2 \in V :
                   /\ t1[1].k = "val" /\ t1[1].v < v2 /\ \A i \in 2..n : t1[i].k # "in"
                   /\ AddIn(t1, [t1 EXCEPT ![1] = [k |-> "val", v |-> v2]], r)
+           \/ \E n \in Arities, r1, r2 \in R : \E es1 \in Tuples(n), v2 \in V :
+                  /\ es1[1].k = "val" /\ es1[1].v # v2 /\ \A i \in 2..n : es1[i].k = "any"
+                  /\ AddMatches(es1, r1, [es1 EXCEPT ![1] = [k |-> "val", v |-> v2]], r2)
            \/ CallAll
 Spec == Init /\ [][Next]_vars
 
